@@ -374,10 +374,48 @@ def input_kind_clause(model, rep, funcs):
            clause="6 input kind", stmt="construct_loading_tasks from_array")
 
 
+# --------------------------------------------------------------------------- clause 7: task functions do not modify what they are given
+def argument_purity_clause(model, rep, cg):
+    """Every function dask runs as a task (and everything reachable from it) leaves its array arguments untouched: the template, mask and
+    missing-wedge arrays are shared between all tasks (TemplateMaskCache, lru_cache), so an in-place update makes a result depend on which
+    tasks ran before it."""
+    ea = EffectAnalysis(model)
+    entries = set()
+    for site, call, fns, how in cg.task_entries():
+        entries.update(fns)
+    reach = set()
+    for f in entries:
+        reach |= set(cg.reachable([f]))
+    rep.stats["task_reachable_functions"] = len(reach)
+    if len(reach) < 100:
+        rep.error(f"only {len(reach)} task-reachable functions found (floor 100): the call graph no longer sees the task code")
+    scalar_ann = ("int", "float", "bool", "str", "pixel", "nm", "degree")
+    bad = []
+    for f in sorted(reach, key=lambda x: x.anchor):
+        anns = {}
+        a = f.node.args if hasattr(f.node, "args") else None
+        if a is not None:
+            for x in a.posonlyargs + a.args + a.kwonlyargs:
+                anns[x.arg] = norm_src(x.annotation) if x.annotation is not None else ""
+        for e in ea.summary(f).effects:
+            if e.kind == "mutate" and e.root.startswith("param:"):
+                pname = e.root.split(":", 1)[1]
+                if isinstance(e.node, ast.AugAssign) and isinstance(e.node.target, ast.Name) and anns.get(pname, "") in scalar_ann:
+                    continue  # re-binding of an immutable scalar
+                bad.append((f, e))
+    for f, e in bad:
+        rep.instance("S26", f.loc(e.node))
+        rep.ob("S26", f.anchor, "code that runs inside a dask task never updates one of its arguments in place", False,
+               f"{e.describe()}: the argument may be an array shared by all tasks (cached template / mask / wedge); results then depend on task order and scheduler",
+               node=e.node, fn=f, clause="7 argument purity")
+    rep.ob("S26", "task-reachable code", "no function reachable from a dask task mutates a parameter in place", not bad,
+           f"{len(reach)} task-reachable function(s) from {len(entries)} task entry function(s) examined", clause="7 argument purity", stmt="S26 summary")
+
+
 def check(model, rep, tier):
     rep.decided += ["C10.1 cache-key classes have consistent __hash__/__eq__", "C10.2 no shared container is both inserted into and iterated (un-snapshotted) by task-reachable code",
                     "C10.3 the global default backend is not task-writable", "C10.4 memoised results are never mutated", "C10.5 declared lazy shapes agree with produced shapes",
-                    "C10.6 numpy and dask inputs share one code path"]
+                    "C10.6 numpy and dask inputs share one code path", "C10.7 task-reachable code never mutates an argument in place"]
     rep.not_decided += ["bitwise equality of floating-point reductions under different chunkings", "thread-safety of numpy/scipy/dask themselves",
                         "actual thread interleavings (no schedule exploration: the rule excludes the conflict pattern instead)"]
     funcs = need_funcs(model, rep, ANCHORS)
@@ -390,3 +428,4 @@ def check(model, rep, tier):
     cached_clause(model, rep, cg)
     lazy_shape_clause(model, rep, cg)
     input_kind_clause(model, rep, funcs)
+    argument_purity_clause(model, rep, cg)
